@@ -62,16 +62,16 @@ Definition ex_fix_q : neq :=
         [NChr " "; NChr "("; NTerm "alpha_1" (IInt 0%Z); NChr " "; NChr "*"; NChr " "; NFunc "max"; NChr "("; NTerm "YD" (IInt 2%Z); NChr ","; NChr " ";
          NTerm "H" (IInt (-1)%Z); NChr ")"; NChr " "; NKw "if"; NChr " "; NTerm "X" (IStr "'2000'"); NChr " "; NChr "<"; NChr "="; NChr " "; NChr "0"; NChr " ";
          NKw "else"; NChr " "; NVerb "np.pi *  2"; NChr ")"].
-Example ex_fix_ok : dq_ok ex_fix_q = true.
+Example ex_fix_ok : dq_ok canon ex_fix_q = true.
 Proof. vm_compute. reflexivity. Qed.
 Example ex_fix_texts :
-  denorm_text ex_fix_q = "C[+1] = (alpha_1[0] * max(YD[+2], H[-1]) if X['2000'] <= 0 else `np.pi *  2`)" /\
+  denorm_text canon ex_fix_q = "C[+1] = (alpha_1[0] * max(YD[+2], H[-1]) if X['2000'] <= 0 else `np.pi *  2`)" /\
   neq_text ex_fix_q = "C[t+1] = (alpha_1[t] * max(YD[t+2], H[t-1]) if X['2000'] <= 0 else `np.pi *  2`)" /\
   neq_code ex_fix_q = "self._C[t+1] = (self._alpha_1[t] * max(self._YD[t+2], self._H[t-1]) if self['X', '2000'] <= 0 else np.pi *  2)".
 Proof. vm_compute. repeat split; reflexivity. Qed.
 (* the theorem at work *)
 Example ex_fix_instance :
-  exists syms, parse_equation_M (denorm_text ex_fix_q) = POk syms /\
+  exists syms, parse_equation_M (denorm_text canon ex_fix_q) = POk syms /\
     exists s, In s syms /\ sname s = Some "C" /\ sequation s = Some (neq_text ex_fix_q) /\ scode s = Some (neq_code ex_fix_q).
 Proof. eexists. split; [vm_compute; reflexivity|]. eexists. split; [left; reflexivity|]. vm_compute. repeat split; reflexivity. Qed.
 
@@ -79,4 +79,10 @@ Proof. eexists. split; [vm_compute; reflexivity|]. eexists. split; [left; reflex
 Example backticked_period_not_a_fixed_point :
   codes_of_res (parse_model_nocheck "Y = X[`2001`]") = ["self._Y[t] = self['X', 2001]"] /\
   codes_of_res (parse_model_nocheck "Y[0] = X[2001]") = ["self._Y[t] = self._X[t+2001]"].
+Proof. vm_compute. split; reflexivity. Qed.
+
+(* another admissible layout of the same equation: blanks inside the right-hand index brackets, leads without "+" *)
+Definition ex_lay : layout := fun name i => if String.eqb name "C" then ("", "", false) else (" ", "  ", false).
+Example ex_lay_ok : dq_ok ex_lay ex_fix_q = true /\
+  denorm_text ex_lay ex_fix_q = "C[1] = (alpha_1[ 0  ] * max(YD[ 2  ], H[ -1  ]) if X[ '2000'  ] <= 0 else `np.pi *  2`)".
 Proof. vm_compute. split; reflexivity. Qed.
